@@ -363,6 +363,28 @@ def main():
                 ok = arg is not None and attr_chain(arg) == ['self', '_policer']
                 ob("sync:W_%s_hands_the_policer_to_%s" % (meth, itname), "sync_client/client.py :: SnmpSession.%s" % meth, ok,
                    "sync_client/client.py:%d" % c.lineno, "%s(...) at line %d is not given self._policer as its policer" % (itname, c.lineno))
+        # ---- L: a Future awaited inside a loop is created in that loop iteration (C01: the call returns; an already-done Future
+        #         awaited again never yields, the coroutine spins and the timeout cannot fire) ---------------------------------------
+        at = trees['async_client/client.py']
+        n_l = 0
+        for cls, m in methods(at):
+            for loop_ in [n for n in ast.walk(m) if isinstance(n, ast.While)]:
+                awaited = [n.value.id for n in ast.walk(loop_) if isinstance(n, ast.Await) and isinstance(n.value, ast.Name)]
+                for name in sorted(set(awaited)):
+                    created_in = [n for n in ast.walk(loop_) if isinstance(n, (ast.Assign, ast.AnnAssign)) and
+                                  any(isinstance(t, ast.Name) and t.id == name for t in (n.targets if isinstance(n, ast.Assign) else [n.target])) and
+                                  isinstance(n.value, ast.Call) and (attr_chain(n.value.func) or [''])[-1] == 'create_future']
+                    created_any = [n for n in ast.walk(m) if isinstance(n, (ast.Assign, ast.AnnAssign)) and
+                                   any(isinstance(t, ast.Name) and t.id == name for t in (n.targets if isinstance(n, ast.Assign) else [n.target])) and
+                                   isinstance(n.value, ast.Call) and (attr_chain(n.value.func) or [''])[-1] == 'create_future']
+                    if not created_any:
+                        continue
+                    n_l += 1
+                    ob("async:L_%s_%s_awaits_a_future_of_this_iteration" % (m.name, name), "async_client/client.py :: %s.%s" % (cls.name, m.name),
+                       len(created_in) >= 1, "async_client/client.py:%d" % loop_.lineno,
+                       "`await %s` inside the loop at line %d awaits a Future created outside the loop (the second wait never yields)" % (name, loop_.lineno))
+        if n_l < 1:
+            raise Unsupported("async client: no awaited Future inside a loop found (the receive loop changed shape)")
         # ---- D: deferred user (C13): refresh() discovers the engine id, THEN installs the deferred user's keys, THEN forgets it ----
         for f, kind in (('sync_client/client.py', 'sync'), ('async_client/client.py', 'async')):
             m = find(trees[f], 'SnmpSession', 'refresh')
